@@ -2,7 +2,8 @@
 ALL = ["C%02d" % i for i in range(1, 20)]
 
 NOTES = ("Technique family: machine-checked proof in Coq 8.16.1. Each property has theorems about an executable Gallina "
-         "model of the Rust code (coq/props/Cxx.v), the model is tied to /repo on every run by the constants translator "
+         "model of the Rust code (coq/props/Cxx.v, and coq/props/src/Cxx.v about bodies translated from the source), the model is tied to /repo on every run by four translators "
+         "(constants, digest layouts, purity scan, Rust-subset-to-Gallina translation of core and API bodies) "
          "and by a correspondence check that evaluates the model inside coqc on the inputs and outputs of the real library. "
          "See DESIGN.md.")
 
@@ -124,4 +125,24 @@ CHECKS = {
 }
 
 DONE = set(CHECKS)
+# second session: translators beyond the constants, and source-level theorems
+_TRANSLATED = {
+    "C01": "SrpProof::into_server", "C02": "SrpProof::into_server and SrpClientChallenge::verify_server_proof",
+    "C03": "SKey::as_equal_slice", "C05": "SrpServer::verify_reconnection_attempt and SrpClient::calculate_reconnect_values",
+    "C06": "the six ProofSeed::into_{client,server}_header_crypto functions", "C07": "the Vanilla encrypt / decrypt loop bodies",
+    "C08": "the TBC encrypt / decrypt loop bodies", "C09": "Rc4::pseudo_random_generation", "C10": "ServerEncrypterHalf::encrypt_server_header",
+    "C11": "the Vanilla / TBC loop bodies and the Wrath encrypt_server_header", "C14": "SKey::as_equal_slice",
+    "C15": "the positions of the random draws in into_server, verify_reconnection_attempt, calculate_reconnect_values",
+    "C16": "pin_to_bytes", "C18": "get_number_at_coordinates, get_matrix_coordinates and the RC4 output step",
+}
+_SRC_THEOREMS = {"C02", "C03", "C05", "C06", "C07", "C08", "C10", "C14", "C16", "C18"}
+for _k, _c in CHECKS.items():
+    _c["text"] += (" Every run also re-reads the source: constants and inline literals, the field order of every digest (incl. byte order and width of serialised integers),"
+                   " and a scan of the files the property reaches for hidden state / unsafe / ambient inputs, each as a proof obligation against the regenerated file.")
+    if _k in _TRANSLATED:
+        _c["text"] += (" The body of %s is translated from the Rust source into Gallina on every run (tools/extract_steps.py) and proved equal to the model%s."
+                       % (_TRANSLATED[_k], "; props/src/%s.v states the property directly about the translated term" % _k if _k in _SRC_THEOREMS else ""))
+        _c["technique"] += " + source-to-Gallina translation of the core bodies with machine-checked equality to the model"
+    _c["note"] += " Also trusted: the translators tools/extract_{consts,layouts,purity,steps}.py (their rendering of Rust syntax and integer / bounds semantics)."
+
 NOT_APPLICABLE = [{"property_id": p, "reason": "not yet claimed: the Coq model, theorems and correspondence for this property are still being built (see DESIGN.md §7a); no check is registered until its tie to the code is in place"} for p in ALL if p not in DONE]
